@@ -76,7 +76,7 @@ def check_c08(tier, seed):
     violations = []  # (replay_path, suffix)
     corp = corpus_scripts("gc")
     scripts = [ops for _, ops in corp]
-    nrand = 4000 if tier == "quick" else 40000
+    nrand = 4000 if tier == "quick" else 200000
     for i in range(nrand):
         scripts.append(gcgen.random_history(rng, max_obj=rng.choice([2, 3, 4, 6]), max_ops=rng.choice([12, 25, 40]),
                                             malformed=(i % 10 == 9)))
